@@ -23,7 +23,7 @@ def set_cfg(prog, steps, name):
     return out
 
 
-def grid(c, rng, tier):
+def grid(c, rng, tier, _results=None):
     """bounds around the known step count of each program"""
     count = 40 if tier == "quick" else 600
     base = gen.batch(rng.next(), GRID_PROFILE, count, "c13g_", ("rr", "random"))
